@@ -96,3 +96,40 @@ Theorem c14_code_free_action_detail : forall m rho dl,
 Proof. exact code_free_action_detail. Qed.
 Print Assumptions c14_code_free_action_detail.
 
+(* libwifi_remove_tag as translated (iterator inlined), for every list: the block is released exactly when the list becomes empty (free, pointer cleared), shrunk otherwise, and a
+   failed shrink keeps the old, still valid block and the new length - the allocation side of the removal, from the C text of this run (also stated as c05_code_remove_tag_refines_model) *)
+From Coq Require Import String.
+From LW Require Import Base.Bytes Base.CExpr Gen.Sites Spec.CodeSpec Model.TagIter Model.Tags Proofs.CodeTagEdit.
+Local Open Scope string_scope.
+Local Open Scope list_scope.
+Local Open Scope Z_scope.
+
+Theorem c14_code_remove_tag_refines_model : forall buf p n rho F,
+  wfbytes buf -> 0 < p -> p + zlen buf < 2 ^ 62 -> - 2 ^ 31 <= n < 2 ^ 31 ->
+  rho "tags->parameters" = p -> rho "tags->length" = zlen buf -> rho "tag_number" = n ->
+  (remove_fuel (zlen buf) <= F)%nat ->
+  let s := {| t_len := zlen buf; t_bytes := buf |} in
+  let run := exec F (mem_at p buf) rho [] body_libwifi_remove_tag in
+  let ans := wrap u64 (rho "ret:realloc") in
+  match walk_of buf with
+  | Err _ =>
+      remove_tag s n = Done (s, -22) /\
+      exists rho', run = Returned (Some (-22)) rho' [] /\ rho' "tags->length" = zlen buf /\ rho' "tags->parameters" = p
+  | Ok l =>
+      match find_num n l with
+      | None =>
+          remove_tag s n = Done (s, 0) /\
+          exists rho', run = Returned (Some 0) rho' [] /\ rho' "tags->length" = zlen buf /\ rho' "tags->parameters" = p
+      | Some e =>
+          let o := e_off e in let L := e_len e in
+          (e_num e = n /\ exists l1 l2, l = l1 ++ e :: l2 /\ Forall (fun x => e_num x <> n) l1) /\
+          (0 <= o /\ o + 2 + L <= zlen buf /\ n = znth buf o /\ L = znth buf (o + 1) /\ 0 <= L < 256) /\
+          (exists s', remove_tag s n = Done (s', 0) /\ t_len s' = zlen buf - 2 - L /\
+                      t_bytes s' = zfirstn o buf ++ slice (o + 2 + L) (zlen buf - o - 2 - L) buf) /\
+          exists rho', run = Returned (Some 0) rho' (remove_trace p o L (zlen buf)) /\
+                       rho' "tags->length" = zlen buf - 2 - L /\
+                       rho' "tags->parameters" = new_params p ans (zlen buf - 2 - L)
+      end
+  end.
+Proof. exact code_remove_tag_refines_model. Qed.
+Print Assumptions c14_code_remove_tag_refines_model.
